@@ -1,5 +1,5 @@
 // C20: hash_set.HashSet (Add/Remove/Exist/Len) vs model HashSet.v.
-// input : [cap ksz fixed hashkind [op...]]  op = [1 xKey h] [2 xKey h] [3 xKey h] [4]
+// input : [cap ksz fixed hashkind [op...] haSize]   (haSize read off a real set by the generator)  op = [1 xKey h] [2 xKey h] [3 xKey h] [4]
 // output: [[obs...] [[ha...] [next...] free length [xSlot...]]]  or [-1 1] when NewHashSet fails
 package main
 
@@ -61,7 +61,7 @@ func errCode(e error) int {
 
 func impl(in hv.Val) hv.Val {
 	p := hv.AsList(in)
-	if len(p) != 5 {
+	if len(p) != 6 {
 		return hv.Err(0)
 	}
 	capN, ksz, fixed, kind := int(hv.AsInt(p[0])), int(hv.AsInt(p[1])), hv.AsBool(p[2]), int(hv.AsInt(p[3]))
@@ -183,7 +183,7 @@ func genPool(r *hv.Rng) (string, hv.Val) {
 	if fixed {
 		class = "pool-fixed"
 	}
-	return class, hv.L{hv.I(n), hv.I(size), hv.Bool(fixed), hv.I(-1), ops}
+	return class, hv.L{hv.I(n), hv.I(size), hv.Bool(fixed), hv.I(-1), ops, hv.I(0)}
 }
 
 func gen(r *hv.Rng, i int, tier string) (string, hv.Val) {
@@ -200,7 +200,7 @@ func gen(r *hv.Rng, i int, tier string) (string, hv.Val) {
 		} else {
 			ksz = -r.Intn(2)
 		}
-		return "triv-badcfg", hv.L{hv.I(capN), hv.I(ksz), hv.Bool(fixed), hv.I(kind), hv.L{}}
+		return "triv-badcfg", hv.L{hv.I(capN), hv.I(ksz), hv.Bool(fixed), hv.I(kind), hv.L{}, hv.I(1)}
 	}
 	// a small key universe so that re-adds, removals of members and collisions are frequent
 	nk := r.Range(2, capN+4)
@@ -253,7 +253,13 @@ func gen(r *hv.Rng, i int, tier string) (string, hv.Val) {
 	if kind == 1 {
 		class += "-consthash"
 	}
-	return class, hv.L{hv.I(capN), hv.I(ksz), hv.Bool(fixed), hv.I(kind), ops}
+	// the number of buckets is whatever NewHashSet chooses (elemNum * LOAD_FACTOR today)
+	probe, err := hash_set.NewHashSet(capN, ksz, fixed, nil)
+	if err != nil {
+		panic(err)
+	}
+	ha, _, _, _, _ := probe.VerifDump()
+	return class, hv.L{hv.I(capN), hv.I(ksz), hv.Bool(fixed), hv.I(kind), ops, hv.I(len(ha))}
 }
 
 func main() {
